@@ -193,6 +193,9 @@ def judge_loss(case, obs):
                     out.append(("C17:tridonic:command-before-handshake", "a command was written after (re)opening the device before the "
                                 "version/serial handshake completed (init writes seen: %r)" % sorted(seen)))
                     break
+    if drv == "tridonic" and obs["_connected_at_end"] and obs.get("_ident") != ("2.5", "DEADBEEF"):
+        out.append(("C17:tridonic:handshake-state-corrupted", "connected with firmware_version/serial = %r, the gateway reports "
+                    "('2.5', 'DEADBEEF'); init writes %r" % (obs.get("_ident"), [w["what"] for w in obs["wire_all"] if w["kind"] == "init"][-4:])))
     if present_at_end and losses and not failed and obs["_connected_at_end"] is False and (limit is None):
         out.append(("C17:%s:never-reconnects" % drv, "device back since t=%.3f, no reconnect limit, but the driver is still "
                     "disconnected at t=%.1f; status log %r; loop exceptions %r" % (restores[-1], obs["t_end"], obs["status_log"][-4:], obs["loop_exceptions"][:1])))
@@ -245,6 +248,7 @@ def run_case(case):
         if case["driver"] in sc.HID:
             obs["open_attempts"] = list(sim.gw.open_attempts)
             obs["_connected_at_end"] = sim.driver.connected.is_set()
+            obs["_ident"] = (getattr(sim.driver, "firmware_version", None), getattr(sim.driver, "serial", None))
             obs["wire_all"] = list(sim.gw.wire)
     obs = sc.run(case, hooks={"inspect": inspect})
     # non-triviality measured from the trace
@@ -290,11 +294,24 @@ def loss_case(draw, driver=None):
         events.append({"t": t_loss, "what": "lose", "notify": True, "eof": how == "eof"})
     limit = draw(st.sampled_from([None, None, 0, 1, 3]))
     interval = draw(st.sampled_from([0.5, 1]))
-    back = draw(st.sampled_from(["never", "soon", "during-wait", "late", "flaky-handshake"]))
+    back = draw(st.sampled_from(["never", "soon", "during-wait", "late", "flaky-handshake", "lost-during-handshake",
+                                 "lost-during-handshake"]))
+    if back == "lost-during-handshake" and how == "write_fails":
+        back = "soon"
     if back != "never":
         t_back = t_loss + {"soon": 0.35, "during-wait": interval * 1.5 + 0.31, "late": interval * 2.2 + 0.31,
-                           "flaky-handshake": 0.35}[back]
+                           "flaky-handshake": 0.35, "lost-during-handshake": 0.2}[back]
         events.append({"t": t_back, "what": "restore"})
+        if back == "lost-during-handshake":
+            # the device vanishes again while the version/serial handshake of the reconnection is under way
+            # (reconnection attempts run at detection time + k * interval; reports arrive 1..5 ms after a write)
+            for k in (1, 2):
+                t_a = t_loss + k * interval
+                off = draw(st.sampled_from([0.0004, 0.002, 0.0035, 0.0045, 0.0055, 0.007, 0.012]))
+                events.append({"t": round(t_a + off, 5), "what": "lose", "notify": True})
+                events.append({"t": round(t_a + off + 0.2, 5), "what": "restore"})
+                if draw(st.booleans()):
+                    break
         if back == "flaky-handshake":
             # the device is back but writes fail for a while (e.g. still enumerating): the handshake write fails
             events.append({"t": t_back + 0.001, "what": "write_fails"})
